@@ -40,6 +40,7 @@ func runHarness(bin string, gmp int, wall time.Duration, args ...string) procOut
 		"GORACE=log_path="+racef+" halt_on_error=0 exitcode=0 atexit_sleep_ms=0 history_size=2",
 		"VERIF_RACELOG="+racef,
 		"GOTRACEBACK=single",
+		"GODEBUG=", // nothing but the library may write to fd 1/2
 	)
 	cmd.Dir = dir
 	err := cmd.Run()
